@@ -335,7 +335,7 @@ func (e *Env) Tr(x Expr) TV {
 		panic("unknown method " + x.Name)
 	case *EIndex:
 		if l := e.tryLog(x.X); l != nil {
-			return TV{T: l.atT(e.Tr(x.I).T), Ty: Type{K: KStruct, Name: "Event"}}
+			return TV{T: l.atT(e.Tr(x.I).T), Ty: Type{K: KStruct, Name: "GhostEv"}}
 		}
 		v, i := e.Tr(x.X), e.Tr(x.I)
 		if v.Ty.K == KList {
@@ -562,7 +562,7 @@ func EventTerm(ev Event, sorts []string) *sx.T {
 				}
 			}
 		}
-		EventDecls[key] = fmt.Sprintf("%s|(declare-fun %s (%s) Event)", fn, fn, strings.Join(sorts, " "))
+		EventDecls[key] = fmt.Sprintf("%s|(declare-fun %s (%s) GhostEv)", fn, fn, strings.Join(sorts, " "))
 	}
 	fn := strings.SplitN(EventDecls[key], "|", 2)[0]
 	if len(ev.Args) == 0 {
@@ -729,9 +729,21 @@ func (e *Env) call(x *ECall) TV {
 		return TV{T: sx.App("W", toBytes(e.Tr(x.Args[0]))), Ty: B}
 	case x.Fn == "cres":
 		m := x.Args[0].(*EStr).V
-		return TV{T: sx.App("cres_"+strings.NewReplacer(".", "_", "-", "_").Replace(m), e.Tr(x.Args[1]).T), Ty: Type{K: KAny}}
+		fn := "cres_" + strings.NewReplacer(".", "_", "-", "_").Replace(m)
+		Declare("cres:"+fn, fmt.Sprintf("(declare-fun %s (Int) Any)", fn))
+		return TV{T: sx.App(fn, e.Tr(x.Args[1]).T), Ty: Type{K: KAny}}
 	case x.Fn == "asint":
+		Declare("uf:unbox_Int", "(declare-fun unbox_Int (Any) Int)")
 		return TV{T: sx.App("unbox_Int", e.Tr(x.Args[0]).T), Ty: I}
+	case x.Fn == "asbytes":
+		Declare("uf:unbox_NB", "(declare-fun unbox_NB (Any) NB)")
+		return TV{T: sx.App("unbox_NB", e.Tr(x.Args[0]).T), Ty: Type{K: KNB}}
+	case x.Fn == "designated":
+		// roles.GetDesignatedByRole(roles.NeoFSAlphabet, height + 1): the NeoFS Alphabet keys of the main chain
+		NeedList(Type{K: KNB})
+		Declare("uf:native_roles_GetDesignatedByRole", "(declare-fun native_roles_GetDesignatedByRole (Int Int) L_NB)")
+		Declare("uf:native_ledger_CurrentIndex", "(declare-const native_ledger_CurrentIndex Int)")
+		return TV{T: sx.App("native_roles_GetDesignatedByRole", sx.Int(16), sx.App("+", sx.Atom("native_ledger_CurrentIndex"), sx.Int(1))), Ty: Type{K: KList, Name: "L_NB"}}
 	case x.Fn == "committee":
 		return TV{T: committeeT(), Ty: Type{K: KList, Name: "L_NB"}}
 	case x.Fn == "ripemd160":
@@ -798,7 +810,7 @@ func (e *Env) call(x *ECall) TV {
 			sorts = append(sorts, tv.Ty.Sort())
 		}
 		ev.Sorts = sorts
-		return TV{T: EventTerm(ev, sorts), Ty: Type{K: KStruct, Name: "Event"}}
+		return TV{T: EventTerm(ev, sorts), Ty: Type{K: KStruct, Name: "GhostEv"}}
 	}
 	panic("unknown function " + x.Fn)
 }
